@@ -31,6 +31,8 @@ type World struct {
 	implCache map[string][]*ssa.Function
 	PureIface func(c *ssa.CallCommon) bool // set from the contracts: interface methods declared pure
 	// package-level variables stored only by package initialisers
+	FrameKeys map[*ssa.Function]map[string]bool // per-key version of FrameAll (stores in the function itself only)
+	FrameAll map[*ssa.Function]bool // functions whose contract makes them prove (class framewrite) that they write only fresh memory
 	ConstTables map[*ssa.Global]*constTable
 	WE map[*ssa.Function]map[string]*wclass
 	// closed-world function types: signature string -> library functions whose address is taken with that type. Only
